@@ -48,6 +48,12 @@ func randTOp(r *rng, cur, n int) (string, bool) {
 }
 
 func genC03(tier string, r *rng, emit func(string)) {
+	// found by the proof of history_refines (RefineProofs.v): RollAxis of a strided vector-shaped
+	// view goes through AP.T, which overwrites the strides with ones (F45)
+	for _, p := range []string{"new:rm:6,1:1;slice:0:0.6.2;rollaxis:1:1:0:0", "new:rm:6,1:1;slice:0:0.6.2;rollaxis:1:1:0:1",
+		"new:rm:1,6:1;slice:0:_/0.6.2;rollaxis:1:1:0:1", "new:rm:6,2:1;slice:0:0.6.2/0.1.1;rollaxis:1:0:2:0"} {
+		emit("prog f64 " + p)
+	}
 	thorough := tier == "thorough"
 	dts := []string{"f64", "u8", "i16", "f32", "c128", "str", "c64", "b", "i"} // widths 8,1,2,4,16,string,8,1
 	maxRank := 4
